@@ -17,6 +17,24 @@ CHECKS = {
              ]},
         ],
     },
+    "C05": {
+        "explanation": "bounded symbolic execution of the real commit log with a crash after a symbolic k-th file-system effect (memFS effect counter), followed by the real recovery (New) and a full read-back",
+        "assumptions": ["process-crash model: an effect that returned is durable, effects apply in program order, a single write/mmap store/rename is atomic",
+                        "memFS models the file system; a second crash during recovery and torn writes are outside"],
+        "groups": [
+            {"pkg": "./server/commitlog", "overlay": "commitlog", "pkgname": "commitlog",
+             "harnesses": [
+                 {"name": "VerifC05Append", "quick": {"msgs": 2}, "thorough": {"msgs": 3}, "replay": "native-derived",
+                  "covers": ["crashed", "recovered"], "targets": ["segment).setupIndex", "commitLog).open", "index).InitializePosition"]},
+                 {"name": "VerifC05Truncate", "quick": {"msgs": 3}, "thorough": {"msgs": 4}, "replay": "native-derived",
+                  "covers": ["crashed", "recovered"], "targets": ["commitLog).Truncate", "segment).Replace"]},
+                 {"name": "VerifC05Retention", "quick": {"msgs": 3}, "thorough": {"msgs": 4}, "replay": "native-derived",
+                  "covers": ["crashed", "recovered"], "targets": ["deleteCleaner).deleteSegments"]},
+                 {"name": "VerifC05Compact", "quick": {"msgs": 2}, "thorough": {"msgs": 3}, "replay": "native-derived",
+                  "covers": ["crashed", "recovered", "recompacted"], "targets": ["compactCleaner).cleanSegment", "segment).Replace"]},
+             ]},
+        ],
+    },
     "C08": {
         "explanation": "bounded symbolic execution of commitLog.Clean with compaction on the real log over memFS, survivors compared with an independent oracle",
         "assumptions": ["memFS models the file system", "message timestamps are positive and non-decreasing (server wall clock)",
@@ -61,6 +79,8 @@ CHECKS = {
 TECH = "bounded symbolic execution of the real Go code (go/ssa) with z3; counterexamples replayed natively"
 
 META = {
+    "C05": {"text": "Bounded symbolic model checking of the implementation: the real commit log runs over an in-memory file system whose every mutating effect (file write, mmap store, create, truncate, rename, remove, atomic replace) is counted; the crash point k is a symbolic variable, so within each workload every point between two effects is covered; after the crash the real New() recovers the directory and a full read-back, index point look-ups, HW, epoch history and a further append are checked. Counterexamples are confirmed by writing the crash-time image into a real directory and running the real recovery on it.",
+            "design_ref": "DESIGN.md §4 C05", "note": "bounds: workloads of 2-3 appends (+HW checkpoint), Truncate/retention/compaction of 3 messages in 1-3 segments, one crash per run; process-crash model (returned effects durable, single write/rename atomic); crash during recovery and torn writes outside", "technique": TECH},
     "C01": {"text": "Bounded symbolic model checking of the implementation: the real commit log (New/Append/AppendMessageSet/Truncate/Close+New/readers) runs symbolically over an in-memory file system; operation choice, payload bytes, timestamps, epochs, truncation offsets and the segment-size limit are symbolic; after every step the readable content is compared with an independent model.",
             "design_ref": "DESIGN.md §4 C01", "note": "bounds: <=2 batches of <=2 messages / 2-3 operation steps / 3-4 messages with a long-lived reader; keys/values nil|empty|1-2 symbolic bytes; segment size 1..4096; memFS stands in for the OS; timestamps > 0", "technique": TECH},
     "C08": {"text": "Bounded symbolic model checking of the implementation: real compaction on a real log over memFS for every key pattern (nil/empty/1 symbolic byte), every segment layout reachable with the stated sizes, every HW, 1-2 scan workers, an append racing the compaction, and a repeated Clean; forward and reverse read-back from every start compared with an independently computed survivor set.",
